@@ -15,6 +15,11 @@ def run(ctx, R, tier):
     run_singular_only(R, F, lambda fn: 'track::sub' in fn or 'info::' in fn or 'glam::' in fn or 'listener' in fn, floor=4)
     rigid(F, R)
     in_chunk(F, R)
+    # 'if the listener was dropped the track is silent': dropped listeners are removed (the C08 drain / sweep / drop rules)
+    from . import c08
+    c08.drain(F, R)
+    c08.sweep(F, R)
+    c08.drops(F, R)
     tb = F.body(TRACK + '::process')
     if not R.check(tb is not None, 'B.C15.nolistener', 'anchor', 'Track::process not found'):
         return
